@@ -70,7 +70,7 @@ class Item:
         p = self.kv.get("props")
         self.props = set(p.split(",")) if p else None
         self.canary = self.kv.get("canary") == "1"
-        self.id = self.kv.get("id") or self.name
+        self.id = self.kv.get("id") or (("gen:" if self.kind == "gen" else "") + (self.name or "?"))
 
 
 class Template:
@@ -216,13 +216,17 @@ def merge(t_toks, r_toks):
             for t in r_toks[j1:j2]:
                 t.src = "R"
                 out.append(t)
+            # ghost runs strictly inside a deleted / replaced span lose their context
+            # (closure specs, proof blocks about deleted statements): they are dropped
+            dropped = []
             for i in range(i1 + 1, i2):
-                out += ghost_before(i)
+                dropped += ghost_before(i)
             drift.append({
                 "op": tag,
                 "template": " ".join(e0[i1:i2]),
                 "repo": " ".join(r[j1:j2]),
                 "repo_line": r_toks[j1].line if j1 < len(r_toks) else (r_toks[-1].line if r_toks else 0),
+                "ghost_dropped": " ".join(t.text for t in dropped)[:300],
             })
     out += ghost_before(len(idx))
     return out, drift
@@ -258,6 +262,24 @@ def assemble(tmpl, repo=None):
             chunks.append("\n".join(lines) + "\n")
             continue
         item = part[1]
+        if item.kind == "gen":
+            # generated spec text (an assumption that follows the source), e.g. the order derived by rustc
+            try:
+                src = open(os.path.join(repo, item.src)).read()
+                stext, l0, l1 = cut(src, "struct", item.name, item.within, item.nth)
+                gtext = getattr(pyrules, "gen_" + item.kv["gen"])(stext)
+            except (CutError, OSError, ValueError, AttributeError) as e:
+                raise UnitError("item %s: cannot generate: %s" % (item.id, e))
+            glines = gtext.rstrip("\n").split("\n")
+            first = len(asm.lines) + 1
+            for k, ln in enumerate(glines):
+                asm.lines.append({"part": "prelude", "item": None, "ghost": True, "props": None, "label": None,
+                                  "tline": None, "src": "G"})
+            chunks.append("\n".join(glines) + "\n")
+            asm.fired.append({"rule": "GEN:" + item.kv["gen"], "item": item.id, "hits": 1,
+                              "why": "spec generated from the declared fields of the real struct"})
+            asm.assumptions.append("%s: generated spec %s for %s (assumes rustc's derive is lexicographic in declared field order)" % (tmpl.unit, item.kv["gen"], item.name))
+            continue
         flags = ghost_flags(item.lines)
         ttext = "\n".join(item.lines) + "\n"
         t_toks, t_tail = lex(ttext, 1)
